@@ -756,6 +756,10 @@ func (x *Exec) lockBalanced(fr *Frame, st *State, ret *ssa.Return) {
 	if !direct || !contractMentionsLocks(fr.fc) {
 		return
 	}
+	if fr.fc.LockHandoff {
+		x.note("assumed: the function hands mutexes to or takes them from its caller (lockhandoff); callers' ghost lock state does not see it")
+		return
+	}
 	for _, k := range sortedKeys(st.H) {
 		if !strings.HasPrefix(k, "Lock.") {
 			continue
